@@ -586,7 +586,12 @@ where
     let call = app.next_call();
     app.log(Ev::PubEnter { call, topic, route, qos, dup, retain, pid, props, size });
     let guard = DropGuard::new(app, GateKind::Pub, call, size as u64);
-    let plan = app.take_pub_plan();
+    let mut plan = app.take_pub_plan();
+    if qos == 0 && app.refusals_need_an_ack.get() && matches!(plan.outcome, Outcome::Nack(_)) {
+        // plans are taken in invocation order; a refusal planned for a QoS 1/2 publish that never
+        // reached its handler must not turn into the failure of a QoS 0 handler
+        plan.outcome = Outcome::Ok;
+    }
     let mut got: Vec<u8> = Vec::new();
     if plan.read == ReadMode::LateAll {
         let g = app.gate(GateKind::PubRead, call * 1000);
